@@ -46,6 +46,52 @@ pub assume_specification [ u128::checked_pow ] (a: u128, b: u32) -> (r: Option<u
 pub assume_specification<T: PartialEq, A: core::alloc::Allocator> [ Vec::<T, A>::dedup ] (v: &mut Vec<T, A>)
     ensures final(v)@ == dedup_seq::<T>(old(v)@);
 
+
+// Option / Result combinators vstd has no specification for: each is its std definition, stated through the closure's
+// own requires / ensures (not used by the pinned sources; code that starts to use them is decided instead of out of reach)
+pub assume_specification<T, U, F: FnOnce(T) -> U> [ Option::<T>::map_or ] (o: Option<T>, d: U, f: F) -> (r: U)
+    requires o is Some ==> f.requires((o->0,)),
+    ensures o is None ==> r == d, o is Some ==> f.ensures((o->0,), r);
+pub assume_specification<T, U, D: FnOnce() -> U, F: FnOnce(T) -> U> [ Option::<T>::map_or_else ] (o: Option<T>, d: D, f: F) -> (r: U)
+    requires o is Some ==> f.requires((o->0,)), o is None ==> d.requires(()),
+    ensures o is None ==> d.ensures((), r), o is Some ==> f.ensures((o->0,), r);
+pub assume_specification<T> [ Option::<T>::or ] (o: Option<T>, b: Option<T>) -> (r: Option<T>)
+    ensures r == (if o is Some { o } else { b });
+pub assume_specification<T, F: FnOnce() -> Option<T>> [ Option::<T>::or_else ] (o: Option<T>, f: F) -> (r: Option<T>)
+    requires o is None ==> f.requires(()),
+    ensures o is Some ==> r == o, o is None ==> f.ensures((), r);
+pub assume_specification<T, F: FnOnce(T) -> bool> [ Option::<T>::is_some_and ] (o: Option<T>, f: F) -> (r: bool)
+    requires o is Some ==> f.requires((o->0,)),
+    ensures o is None ==> !r, o is Some ==> f.ensures((o->0,), r);
+pub assume_specification<T, F: FnOnce(T) -> bool> [ Option::<T>::is_none_or ] (o: Option<T>, f: F) -> (r: bool)
+    requires o is Some ==> f.requires((o->0,)),
+    ensures o is None ==> r, o is Some ==> f.ensures((o->0,), r);
+pub assume_specification<T: Copy> [ Option::<&T>::copied ] (o: Option<&T>) -> (r: Option<T>)
+    ensures r == (match o { Some(v) => Some(*v), None => None::<T> });
+pub assume_specification<T, E, U, F: FnOnce(T) -> U> [ Result::<T, E>::map_or ] (o: Result<T, E>, d: U, f: F) -> (r: U)
+    requires o is Ok ==> f.requires((o->Ok_0,)),
+    ensures o is Err ==> r == d, o is Ok ==> f.ensures((o->Ok_0,), r);
+pub assume_specification<T, E, U, D: FnOnce(E) -> U, F: FnOnce(T) -> U> [ Result::<T, E>::map_or_else ] (o: Result<T, E>, d: D, f: F) -> (r: U)
+    requires o is Ok ==> f.requires((o->Ok_0,)), o is Err ==> d.requires((o->Err_0,)),
+    ensures o is Err ==> d.ensures((o->Err_0,), r), o is Ok ==> f.ensures((o->Ok_0,), r);
+pub assume_specification<T, E> [ Result::<T, E>::unwrap_or ] (o: Result<T, E>, d: T) -> (r: T)
+    ensures r == (match o { Ok(v) => v, Err(_e) => d });
+pub assume_specification<T, E, F: FnOnce(E) -> T> [ Result::<T, E>::unwrap_or_else ] (o: Result<T, E>, f: F) -> (r: T)
+    requires o is Err ==> f.requires((o->Err_0,)),
+    ensures o is Ok ==> r == o->Ok_0, o is Err ==> f.ensures((o->Err_0,), r);
+pub assume_specification<T, E, U, F: FnOnce(T) -> Result<U, E>> [ Result::<T, E>::and_then ] (o: Result<T, E>, f: F) -> (r: Result<U, E>)
+    requires o is Ok ==> f.requires((o->Ok_0,)),
+    ensures o is Err ==> r == Err::<U, E>(o->Err_0), o is Ok ==> f.ensures((o->Ok_0,), r);
+pub assume_specification<T, E, G, F: FnOnce(E) -> Result<T, G>> [ Result::<T, E>::or_else ] (o: Result<T, E>, f: F) -> (r: Result<T, G>)
+    requires o is Err ==> f.requires((o->Err_0,)),
+    ensures o is Ok ==> r == Ok::<T, G>(o->Ok_0), o is Err ==> f.ensures((o->Err_0,), r);
+pub assume_specification<T, E, F: FnOnce(T) -> bool> [ Result::<T, E>::is_ok_and ] (o: Result<T, E>, f: F) -> (r: bool)
+    requires o is Ok ==> f.requires((o->Ok_0,)),
+    ensures o is Err ==> !r, o is Ok ==> f.ensures((o->Ok_0,), r);
+pub assume_specification<T, E, F: FnOnce(E) -> bool> [ Result::<T, E>::is_err_and ] (o: Result<T, E>, f: F) -> (r: bool)
+    requires o is Err ==> f.requires((o->Err_0,)),
+    ensures o is Ok ==> !r, o is Err ==> f.ensures((o->Err_0,), r);
+
 // ---------- rule R15: `|=` / `&=` ----------
 pub trait BitS: Sized {
     spec fn bor_spec(self, o: Self) -> Self;
